@@ -16,6 +16,10 @@ CLAIMED = {
    text='TLC checks on tla/Identify.tla the rename-to pass as a state machine over all 6 walk orders x 125 annotation assignments of three functions (Mutual, Honoured) and the documentation source of virtual methods (own block vs invoker); TLC exports all 750 rename cases, the harness renders them and generated namespaces containing every element kind (class/property/signal/vfunc/method/record/field/union/enum/member/constant/alias/callback/function, prefix-related names, blocks with unique payloads, blocks naming nonexistent identifiers), the real scanner pipeline runs on them, and TLC (IdentifyTrace.tla) judges for every element that its doc/Since/Deprecated/Stability/attributes/skip/target attributes are exactly those of the block carrying its identifier.',
    note='trusted: symgen + gdump XML stand-ins (harness/scan.py); one namespace shape; constructor/method role annotations are left to C04',
    technique='TLA+ model checking (TLC) of the annotation passes + TLC-judged replay of exported cases through the real scanner'),
+ 'C14': dict(level='model_checking', design='DESIGN.md §4 C14',
+   text='TLC quantifies over every perfect hash (injective onto 0..n-1 on the names, ARBITRARY elsewhere), every pack order and every probe of tla/DirIndex.tla (n<=4 quick, <=5 thorough, 2 absent probes) and checks indexed lookup = linear fallback = truth, that the key scans and repository passes agree, that the no-strcmp and no-clamp what-ifs fail, and the index-section size arithmetic with C variable widths over n in 1..65535; the same clauses judge (DirIndexTrace.tla) the real g_typelib_get_dir_entry_by_name (with the index and with the section table unreachable), _by_gtype_name, _by_error_domain and g_irepository_find_by_* on typelibs compiled by /repo g-ir-compiler from generated name sets of 1..65535 entries (short/long/near-colliding/prefix-related names, 2n absent probes) and on the system typelibs.',
+   note='trusted: GLib declaration shim (cshim/), directory order = GIR document order (verified per case for n<=5000), dummy GTypes registered under probed names, integer model of bdz ceil(1.23 m/3); large n sampled in quick (600 members + 1200 absent per key kind)',
+   technique='TLA+ model checking (TLC) with quantification over the hash function + TLC-judged observations of the real lookup functions'),
 }
 checks = []
 for pid, c in sorted(CLAIMED.items()):
@@ -26,7 +30,7 @@ for pid, c in sorted(CLAIMED.items()):
 na = [dict(property_id=p['id'], reason='check not built yet in this round (planned, see DESIGN.md §4); not claimed until its TLA+ module and binding exist')
       for p in props if p['id'] not in CLAIMED]
 m = dict(version=1,
-  setup_cmd='mkdir -p evidence out && /venv/bin/python -m compileall -q harness >/dev/null; for f in tla/*.tla; do tla-sany "$f" >/dev/null || echo "WARN: $f does not parse"; done; true',
+  setup_cmd='mkdir -p evidence out && /venv/bin/python -m compileall -q harness >/dev/null; cd tla && for f in *.tla; do tla-sany "$f" >/dev/null || echo "WARN: $f does not parse"; done; true',
   hooks=dict(guard='GI_VERIF_HOOKS', enable='no source hooks: checks interpose on module namespaces from the harness (harness/sched.py); nothing to enable in /repo',
              baseline_off_cmd='cd /repo && /venv/bin/python -m pytest -ra -q -p no:cacheprovider --timeout=900 --continue-on-collection-errors',
              source_commits=[], add_only=True),
